@@ -294,7 +294,11 @@ def run_unit(tpl_path, width, rlimit=30):
         r["probes_failed_as_required"] = len(hit)
         missing = [k for k in range(1, gv.nprobes + 1) if k not in hit]
         vac_rlimit = any(d.get("level") == "error" and RLIMIT.search(d.get("message", "")) for d in resv.get("diags", []))
-        if "crash" in resv:
+        if "crash" in resv and "timed out" in resv["crash"]:
+            # the probe file is the same text with `assert(false)` added at the probe points; running out of time on
+            # it says nothing about the context being contradictory
+            r["probes_inconclusive"] = "vacuity run " + resv["crash"]
+        elif "crash" in resv:
             r["undecided"].append("vacuity run: " + resv["crash"])
         elif missing and vac_rlimit:
             # the solver could not prove `false` at these points within its budget: not vacuous as far as it can tell
